@@ -15,16 +15,32 @@ func poolWorkerFields() []string {
 	if fn == nil || fn.decl.Body == nil || fn.decl.Recv == nil || len(fn.decl.Recv.List) != 1 || len(fn.decl.Recv.List[0].Names) != 1 {
 		return []string{"?"}
 	}
-	recv := fn.decl.Recv.List[0].Names[0].Name
 	seen := map[string]bool{}
-	ast.Inspect(fn.decl.Body, func(n ast.Node) bool {
-		if s, ok := n.(*ast.SelectorExpr); ok {
-			if id, ok := s.X.(*ast.Ident); ok && id.Name == recv {
-				seen[s.Sel.Name] = true
-			}
+	// recv.m where m is a method of the same type is not a field: the fields that method
+	// mentions are the worker's too (helpers extracted from the worker body)
+	visited := map[string]bool{}
+	var walk func(f *Func)
+	walk = func(f *Func) {
+		if f == nil || f.decl.Body == nil || f.decl.Recv == nil || len(f.decl.Recv.List) != 1 ||
+			len(f.decl.Recv.List[0].Names) != 1 || visited[f.key()] {
+			return
 		}
-		return true
-	})
+		visited[f.key()] = true
+		recv := f.decl.Recv.List[0].Names[0].Name
+		ast.Inspect(f.decl.Body, func(n ast.Node) bool {
+			if s, ok := n.(*ast.SelectorExpr); ok {
+				if id, ok := s.X.(*ast.Ident); ok && id.Name == recv {
+					if m, ok := fn.pkg.funcs[fn.recv+"."+s.Sel.Name]; ok {
+						walk(m)
+					} else {
+						seen[s.Sel.Name] = true
+					}
+				}
+			}
+			return true
+		})
+	}
+	walk(fn)
 	// report the TYPE of each field (from the receiver's struct declaration), so that renaming a
 	// field is not a change while a new kind of shared state is
 	types := map[string]string{}
